@@ -17,6 +17,11 @@ TRUSTED = [
     "(every program point's expected atomic kind/field/order is the generated site), the structure offsets and LONG_MIN/INT_MAX/"
     "WORKQ_MAX constants generated from the source, and (b) per-thread trace conformance: every recorded thread trace of the "
     "real library (pushers, pool workers, the monitor's pokes) must be accepted by RootQ.tstep_vis",
+    "every per-thread trace verdict and every whole-run replay of this part is computed by the OCAML EXTRACTION of the Coq functions "
+    "RootQ.conform / RootQR.abstract / RootQR.replay (coq/Extract/Extract_rootq.v, compiled with ocamlfind ocamlopt, driven by "
+    "ocaml/c01_root_driver.ml): Coq's extraction and the OCaml compiler are in the trusted base of these verdicts; Coq itself "
+    "(vm_compute) judges only a sample of the traces, which must agree with the extracted run; the order search of the whole-run "
+    "replay is untrusted (it only proposes an order, RootQR.replay executes it strictly)",
     "plain (non-atomic) reads of dq_items_tail (queue.c:5920), head->do_next (:5941) and dsema_value are not seen by the hook: "
     "the value read is inferred from the next visible event (RootQ_proofs.tstep_vis_sound); pthread_create is not seen either",
     "atomicity: each os_atomic_* operation is one step; interleaving semantics is sequentially consistent",
@@ -34,7 +39,8 @@ TRUSTED = [
 ]
 ASSUMPTIONS = ["fair scheduling of the threads named by C01_root_unclaimed_item_cases (1)-(4) and C01_root_spin_waits (they show "
                "which thread is responsible for the next look at the queue, not when it is scheduled); in shapes (5) STALL and "
-               "(6) ALL-BUSY no thread is responsible: only the monitor (C01_root_monitor_repairs) or a returning item helps",
+               "(6) ALL-BUSY no thread is responsible: a returning item or the monitor helps (C01_root_monitor_repairs shows that a "
+               "repairing schedule of the monitor EXISTS from such a state; it is not a statement about every schedule)",
                "pthread_create succeeds eventually; the monitor timer fires; /proc reports blocked threads as not runnable"]
 
 MED = (1 << 64) - 1
@@ -51,15 +57,29 @@ def s32(x):
     return x - (1 << 32) if x >> 31 else x
 
 
+class HarnessProblem(Exception):
+    """a harness could not be run to its end (crash, or no exit within the limit twice)"""
+    pass
+
+
+def run_exe(cmd, timeout):
+    """common.run; a wall-clock limit alone is no verdict (machine load): on expiry the command is run once more, alone, with
+    ten times the limit.  Returns the completed run (returncode 124 only if the second run expired too)"""
+    r = common.run(cmd, timeout=timeout)
+    if r.returncode == 124:
+        r = common.run(cmd, timeout=10 * timeout)
+    return r
+
+
 def run_harness(mode, seed, permille, oc, size=0, idle=0, timeout=240):
     exe, msg = common.build_harness("c01_root", ["c01_root.c"], whitebox=True, extra=["-I" + common.VERIF + "/harness"])
     if exe is None:
-        raise RuntimeError("harness build failed: " + msg)
-    r = common.run([exe, mode, str(seed), str(permille), str(oc), str(size), str(idle)], timeout=timeout)
+        raise HarnessProblem("harness build failed: " + msg)
+    r = run_exe([exe, mode, str(seed), str(permille), str(oc), str(size), str(idle)], timeout)
     if r.returncode == 124:
         return "S hang\n"
     if r.returncode != 0:
-        raise RuntimeError("harness failed rc=%s: %s" % (r.returncode, (r.stderr or "")[-1500:]))
+        raise HarnessProblem("harness failed rc=%s: %s" % (r.returncode, (r.stderr or "")[-1500:]))
     return r.stdout
 
 
@@ -276,6 +296,9 @@ def analyse(text, label, st):
     mism = []
     if [run.off_tail, run.off_pool, run.off_head, run.off_pend, run.off_next, run.off_sema] != OFFSETS:
         mism.append({"what": "structure offsets of the running library differ from Gen_rootq", "detail": {"harness": run.q, "gen": OFFSETS}})
+    if (run.final is None or run.n is None) and label.split(":")[0] not in ("stall", "drainwake"):   # the forced-schedule harness prints neither
+        mism.append({"what": "the harness output is incomplete (no F line with the final words / no N line with the counts): "
+                     "truncated output", "detail": {"label": label}})
     fails, ost = api_oracle(run)
     ost["runs_that_exhausted_their_time_budget"] = run.late
     for k, v in ost.items():
@@ -304,6 +327,22 @@ def hexz(x):
     return "-%x" % -x if x < 0 else "%x" % x
 
 
+def run_driver(exe, text, timeout):
+    """the extracted model driver on `text`; on expiry of the wall-clock limit once more with ten times the limit"""
+    import subprocess
+    try:
+        return subprocess.run([exe], input=text, stdout=subprocess.PIPE, stderr=subprocess.PIPE, text=True, timeout=timeout)
+    except subprocess.TimeoutExpired:
+        return subprocess.run([exe], input=text, stdout=subprocess.PIPE, stderr=subprocess.PIPE, text=True, timeout=10 * timeout)
+
+
+def coq_eval_twice(name, imports, body, timeout=900):
+    ok, vals, raw = driver.coq_eval("%s_%d" % (name, os.getpid()), imports, body, timeout=timeout)
+    if not ok:
+        ok, vals, raw = driver.coq_eval("%s_%d_again" % (name, os.getpid()), imports, body, timeout=10 * timeout)
+    return ok, vals, raw
+
+
 def ocaml_conform(traces):
     """RootQ.conform extracted to OCaml (Extract/Extract_rootq.v, ocaml/c01_root_driver.ml) on every trace"""
     import subprocess
@@ -317,7 +356,7 @@ def ocaml_conform(traces):
             lines.append("E %s %s %s %s %s %s %s %x" % (hexz(e.kind), hexz(e.order), hexz(e.obj), hexz(e.off), hexz(e.size),
                                                         hexz(e.a), hexz(e.b), e.ok & 1))
         lines.append(".")
-    r = subprocess.run([exe], input="\n".join(lines) + "\n", stdout=subprocess.PIPE, stderr=subprocess.PIPE, text=True, timeout=900)
+    r = run_driver(exe, "\n".join(lines) + "\n", 900)
     if r.returncode != 0:
         raise RuntimeError("model driver failed: " + r.stderr[-1500:])
     out = [tuple(int(x) for x in l.split()) for l in r.stdout.split("\n") if l.strip()]
@@ -327,39 +366,61 @@ def ocaml_conform(traces):
 
 
 def run_stall(ctx, st):
+    """the two forced schedules; returns (run, mismatches, traces); a witness that cannot be forced (three attempts) is a
+    mismatch: the tie between RootQ.stall_schedule and the library would otherwise pass unexercised"""
     exe, msg = common.build_harness("c01_root_stall", ["c01_root_stall.c"], whitebox=True, extra=["-I" + common.VERIF + "/harness"])
     if exe is None:
-        raise RuntimeError("harness build failed: " + msg)
-    r = common.run([exe, "2500"], timeout=120)
-    if r.returncode != 0:
-        raise RuntimeError("stall harness failed rc=%s: %s" % (r.returncode, (r.stderr or "")[-800:]))
-    line = [l for l in r.stdout.split("\n") if l.startswith("STALL")]
+        raise HarnessProblem("harness build failed: " + msg)
+    mism, m, tr, run = [], [], [], None
+    line, r = None, None
+    for attempt in range(3):
+        r = run_exe([exe, "2500"], 120)
+        if r.returncode != 0:
+            raise HarnessProblem("stall harness failed rc=%s: %s" % (r.returncode, (r.stderr or "")[-800:]))
+        line = [l for l in r.stdout.split("\n") if l.startswith("STALL")]
+        if line and "skipped" not in line[0]:
+            break
+        st["stall_witness_attempts_skipped"] = st.get("stall_witness_attempts_skipped", 0) + 1
     if not line or "skipped" in line[0]:
-        st["stall_witness_skipped"] = 1
-        return None
-    kv = dict(x.split("=") for x in line[0].split()[1:])
-    st["stall_witness_runs"] = 1
-    st["stall_item_waited_for_monitor_ms"] = int(float(kv["held_ms"]))
-    mism = []
-    model = {"pool_size_during": 1, "pending_during": 0, "sem_value_during": 2, "ran_while_monitor_held": 0, "creator_is_manager": 1,
-             "ran_finally": 1}
-    got = {k: int(kv[k]) for k in model}
-    if int(kv["monitor_seen"]) and got != model:
-        mism.append({"what": "the schedule RootQ.stall_schedule forced on the library does not end in the model's stall_state "
-                     "(pool size 1, nothing pending, two banked signals, item not run until the monitor pokes)",
-                     "detail": {"model": model, "library": got}})
-    label = "stall:0:0:0:0:0"
-    run, f, m, tr = analyse(r.stdout, label, st)
+        mism.append({"what": "the lost wake-up schedule RootQ.stall_schedule could not be forced on the library in three attempts: "
+                     "the witness C01_root_stall_needs_monitor was not compared with the implementation",
+                     "detail": {"label": "stall:0:0:0:0:0", "harness_said": (line or ["no STALL line"])[0]}})
+    else:
+        kv = dict(x.split("=") for x in line[0].split()[1:])
+        st["stall_witness_runs"] = 1
+        st["stall_item_waited_for_monitor_ms"] = int(float(kv["held_ms"]))
+        model = {"pool_size_during": 1, "pending_during": 0, "sem_value_during": 2, "ran_while_monitor_held": 0, "creator_is_manager": 1,
+                 "ran_finally": 1}
+        got = {k: int(kv[k]) for k in model}
+        if not int(kv["monitor_seen"]):
+            mism.append({"what": "the forced stall run did not see the monitor thread: the repair by the monitor was not observed",
+                         "detail": {"label": "stall:0:0:0:0:0", "library": got}})
+        elif got != model:
+            mism.append({"what": "the schedule RootQ.stall_schedule forced on the library does not end in the model's stall_state "
+                         "(pool size 1, nothing pending, two banked signals, item not run until the monitor pokes)",
+                         "detail": {"label": "stall:0:0:0:0:0", "model": model, "library": got}})
+        run, f, m, tr = analyse(r.stdout, "stall:0:0:0:0:0", st)
     # second forced schedule: the signal arrives between the worker's timeout and its undo
-    r2 = common.run([exe, "0", "1"], timeout=120)
-    l2 = [l for l in r2.stdout.split("\n") if l.startswith("DRAINWAKE")]
-    if r2.returncode == 0 and l2 and "skipped" not in l2[0]:
+    l2, r2 = None, None
+    for attempt in range(3):
+        r2 = run_exe([exe, "0", "1"], 120)
+        if r2.returncode != 0:
+            raise HarnessProblem("stall harness (drain-wake mode) failed rc=%s: %s" % (r2.returncode, (r2.stderr or "")[-800:]))
+        l2 = [l for l in r2.stdout.split("\n") if l.startswith("DRAINWAKE")]
+        if l2 and "skipped" not in l2[0]:
+            break
+        st["drainwake_attempts_skipped"] = st.get("drainwake_attempts_skipped", 0) + 1
+    if not l2 or "skipped" in l2[0]:
+        mism.append({"what": "the schedule 'signal between a worker's semaphore timeout and its undo' could not be forced on the library "
+                     "in three attempts", "detail": {"label": "drainwake:0:0:0:0:0", "harness_said": (l2 or ["no DRAINWAKE line"])[0]}})
+    else:
         st["drainwake_runs"] = 1
         if "ran=1" not in l2[0]:
-            mism.append({"what": "a worker that timed out on the pool semaphore while a signal arrived did not run the item", "detail": l2[0]})
+            mism.append({"what": "a worker that timed out on the pool semaphore while a signal arrived did not run the item",
+                         "detail": {"label": "drainwake:0:0:0:0:0", "line": l2[0]}})
         run2, f2, m2, tr2 = analyse(r2.stdout, "drainwake:0:0:0:0:0", st)
-        m += m2
-        tr += tr2
+        m = m + m2
+        tr = tr + tr2
     return run, mism + m, tr
 
 
@@ -371,9 +432,9 @@ def check_monitor(ctx, st):
     if exe is None:
         raise RuntimeError("harness build failed: " + msg)
     ncases = 150 if ctx.tier == "quick" else 600
-    r = common.run([exe, str(ctx.seed * 77 + 5), str(ncases)], timeout=120)
+    r = run_exe([exe, str(ctx.seed * 77 + 5), str(ncases)], 120)
     if r.returncode != 0:
-        raise RuntimeError("monitor harness failed rc=%s: %s" % (r.returncode, (r.stderr or "")[-800:]))
+        raise HarnessProblem("monitor harness failed rc=%s: %s" % (r.returncode, (r.stderr or "")[-800:]))
     cases, ncpu, nb = [], None, None
     for l in r.stdout.split("\n"):
         f = l.split()
@@ -389,6 +450,10 @@ def check_monitor(ctx, st):
             pokes = [tuple(int(x) for x in p.split(":")) for p in parts[2].split()]
             cases.append((target, buckets, pokes))
     mism = []
+    if len(cases) != ncases:
+        mism.append({"what": "the monitor differential produced %d cases of %d" % (len(cases), ncases), "detail": {"label": "monitor"}})
+    if not cases or ncpu is None:
+        return mism, 0
     if maxt != 255 or ncpu is None:
         mism.append({"what": "WORKQ_MAX_TRACKED_TIDS of the library differs from the model's", "detail": maxt})
     body = ["Definition cases : list (Z * list (bool * Z)) := ["]
@@ -397,7 +462,7 @@ def check_monitor(ctx, st):
     body.append("].")
     body.append("Eval vm_compute in map (fun '(t, bs) => flat_map (fun o => match o with None => [0; 0] | Some f => [1; f] end) "
                 "(mon_pass t (WORKQ_OVERSUBSCRIBE_FACTOR * %d) 0 bs)) cases." % ncpu)
-    ok, vals, raw = driver.coq_eval("c01root_mon", IMPORTS, "\n".join(body) + "\n")
+    ok, vals, raw = coq_eval_twice("c01root_mon", IMPORTS, "\n".join(body) + "\n")
     if not ok or len(vals) != 1:
         raise RuntimeError("coq evaluation of mon_pass failed: " + raw[-1500:])
     xs = driver.ints(vals[0])
@@ -417,7 +482,8 @@ def check_monitor(ctx, st):
                 kinds["no_poke" if bk[bucket][0] else "empty_queue"] = kinds.get("no_poke" if bk[bucket][0] else "empty_queue", 0) + 1
         if exp != pokes:
             mism.append({"what": "_dispatch_workq_monitor_pools and RootQ.mon_pass decide differently",
-                         "detail": {"target": t, "ncpu": ncpu, "buckets(probe,runnable,blocked)": bk, "library_pokes": pokes, "model_pokes": exp}})
+                         "detail": {"label": "monitor", "target": t, "ncpu": ncpu, "buckets(probe,runnable,blocked)": bk,
+                                    "library_pokes": pokes, "model_pokes": exp}})
     for k, v in kinds.items():
         st["monitor_decision_" + k] = v
     return mism, len(cases)
@@ -465,7 +531,7 @@ def global_replay(run, threads, window=128):
                                                               hexz(e.size), hexz(e.a), hexz(e.b), e.ok & 1))
         lines.append(".")
     lines.append("G %d %x %d" % (run.oc, run.pool0, window))
-    r = subprocess.run([exe], input="\n".join(lines) + "\n", stdout=subprocess.PIPE, stderr=subprocess.PIPE, text=True, timeout=600)
+    r = run_driver(exe, "\n".join(lines) + "\n", 600)
     if r.returncode != 0:
         raise RuntimeError("replay driver failed: " + r.stderr[-1500:])
     if os.environ.get("RQ_DEBUG"):
@@ -527,8 +593,9 @@ def replay_round(run, tr, label, st):
         nxt.append(d)
     nxt.sort(key=lambda d: d["stamp"])
     mism.append({"what": "whole-run replay on the global model RootQ.gstep: no order of the recorded actions is accepted by the model "
-                 "beyond this point (the untrusted order search is incomplete: reported only when three runs of the scenario in a "
-                 "row end like this); first_unmatched = the next recorded action of each thread, oldest first",
+                 "beyond this point (the untrusted order search is incomplete: reported only when a second recording of the scenario "
+                 "ends like this too, or when it happens in more than one scenario of five); first_unmatched = the next recorded "
+                 "action of each thread, oldest first",
                  "detail": {"label": label, "first_unmatched": nxt[:6], "done": res["done"], "left": res["left"],
                             "state": {k: res[k] for k in REPLAY_FIELDS[5:]}}})
     return False, mism
@@ -563,72 +630,73 @@ def plan(ctx):
     return runs
 
 
-def correspond(ctx):
-    global OFFSETS
-    OFFSETS = gen_offsets()
-    fails, mism, alltr, st = [], [], [], {}
-    blocked = []
-    rp_total = rp_ok = 0
-    for (mode, seed, permille, oc, size, idle) in plan(ctx):
-        label = "%s:%d:%d:%d:%d:%d" % (mode, seed, permille, oc, size, idle)
+def judge_scenario(mode, seed, permille, oc, size, idle, label, st):
+    """one harness run of the scenario, judged: oracle + analysis + (runs of at most 60000 events) whole-run replay.
+    Returns (run, failures, mismatches, traces, replayed) with replayed = True / False (no order found: NOT yet a mismatch,
+    the list `order_not_found` carries the detail) / None (not attempted)"""
+    try:
         text = run_harness(mode, seed, permille, oc, size, idle)
-        run, f, m, tr = analyse(text, label, st)
-        fails += f
-        mism += m
-        alltr += tr
-        if run is None:
-            break      # the library does not even run a single item: the remaining runs would only hang
-        # whole-run replay on the global model.  The order is found by an untrusted, incomplete search (the recorder's stamps
-        # only bound each operation's place), so a round for which no order is found is repeated on a fresh run of the same
-        # scenario; three rounds in a row without an order are a mismatch, with the first unmatched actions as detail
-        if sum(len(t[1]) for t in tr) <= 60000 and not m:
-            rp_total += 1
-            done_it, rm = replay_round(run, tr, label, st)
-            tries = 1
-            while not done_it and tries < 3:
-                st["replay_order_not_found_retried"] = st.get("replay_order_not_found_retried", 0) + 1
-                text2 = run_harness(mode, seed + 100 * tries, permille, oc, size, idle)
-                run2, f2, m2, tr2 = analyse(text2, label + ":retry%d" % tries, {})
-                fails += f2
-                if run2 is None or m2:
-                    break
-                done_it, rm = replay_round(run2, tr2, label + ":retry%d" % tries, st)
-                tries += 1
-            mism += rm
-            if done_it:
-                rp_ok += 1
-        if run.b is not None:
-            blocked.append({"label": label, "waiters": run.b[0], "pool_before": run.b[1], "pool_min": run.b[2],
-                            "worker_threads": run.b[3], "elapsed_ms": run.b[4], "finished": run.b[5]})
-            if run.b[5] and not oc and run.b[2] >= 0:
-                mism.append({"what": "blocked-pool run finished without the pool growing beyond its nominal size: the scenario was "
-                             "not exercised", "detail": blocked[-1]})
-    # the lost wake-up predicted by the model (RootQ.stall_schedule / C01_root_stall_needs_monitor), forced on the real
-    # library by holding threads inside the hook: the library must end in the model's stall_state
-    stall = run_stall(ctx, st)
-    if stall is not None:
-        srun, sm, str_ = stall
-        mism += sm
-        alltr += str_
-    st["rounds_replayed_on_global_model"] = rp_ok
-    st["rounds_total_for_replay"] = rp_total
-    mon_mism, mon_n = check_monitor(ctx, st)
-    mism += mon_mism
-    res = ocaml_conform([(sv, t) for (sv, t, _, _, _) in alltr])
-    # the same function evaluated inside Coq on a sample (shortest traces of every kind first), compared with the extracted run
-    order = sorted(range(len(alltr)), key=lambda i: len(alltr[i][1]))
-    sample, budget = [], 2500 if ctx.tier == "quick" else 8000
-    for want in ("monitor", "client", "worker"):
-        for i in order:
-            if alltr[i][4] == want and len(alltr[i][1]) <= budget and len([j for j in sample if alltr[j][4] == want]) < 12:
-                sample.append(i)
-                budget -= len(alltr[i][1])
-    cres = conc.coq_conform("c01root_conf", IMPORTS, "conform", [(alltr[i][0], alltr[i][1]) for i in sample], chunk=40)
-    for i, cr in zip(sample, cres):
-        if tuple(cr) != tuple(res[i]):
-            mism.append({"what": "RootQ.conform evaluated inside Coq and its OCaml extraction disagree on a recorded trace",
-                         "detail": {"label": alltr[i][2], "thread": alltr[i][3], "coq": list(cr), "ocaml": list(res[i])}})
-    st["traces_also_evaluated_inside_coq"] = len(sample)
+    except HarnessProblem as e:
+        return None, [], [{"what": "the stress client could not be run to its end (nothing was judged for this scenario)",
+                           "detail": {"label": label, "error": str(e)}}], [], None, []
+    run, f, m, tr = analyse(text, label, st)
+    if run is None:
+        return None, f, m, tr, None, []
+    if not tr:
+        m.append({"what": "the run recorded no thread trace at all (hook compiled out? truncated output?)", "detail": {"label": label}})
+    replayed, notfound = None, []
+    nev = sum(len(t[1]) for t in tr)
+    if m:
+        st["rounds_not_replayed_analysis_mismatch"] = st.get("rounds_not_replayed_analysis_mismatch", 0) + 1
+    elif nev > 60000:
+        st["rounds_not_replayed_over_60000_events"] = st.get("rounds_not_replayed_over_60000_events", 0) + 1
+    else:
+        try:
+            replayed, rm = replay_round(run, tr, label, st)
+        except RuntimeError as e:
+            replayed, rm = True, [{"what": "the whole-run replay could not be executed by the extracted model driver",
+                                   "detail": {"label": label, "error": str(e)[-1500:]}}]
+        if replayed:
+            m = m + rm
+        else:
+            notfound = rm
+    return run, f, m, tr, replayed, notfound
+
+
+def conformance_mismatches(ctx, alltr, st, coq_sample=True):
+    """per-thread conformance of every recorded trace: RootQ.conform EXTRACTED TO OCAML (Extract_rootq, ocaml/c01_root_driver.ml);
+    the same function evaluated inside Coq on a sample (shortest traces of every kind first) must agree"""
+    mism = []
+    if not alltr:
+        return mism
+    try:
+        res = ocaml_conform([(sv, t) for (sv, t, _, _, _) in alltr])
+    except RuntimeError as e:
+        return [{"what": "per-thread conformance could not be evaluated by the extracted model driver", "detail": {"error": str(e)[-1500:]}}]
+    if coq_sample:
+        order = sorted(range(len(alltr)), key=lambda i: len(alltr[i][1]))
+        sample, budget = [], 2500 if ctx.tier == "quick" else 8000
+        for want in ("monitor", "client", "worker"):
+            for i in order:
+                if alltr[i][4] == want and len(alltr[i][1]) <= budget and len([j for j in sample if alltr[j][4] == want]) < 12:
+                    sample.append(i)
+                    budget -= len(alltr[i][1])
+        try:
+            try:
+                cres = conc.coq_conform("c01root_conf_%d" % os.getpid(), IMPORTS, "conform", [(alltr[i][0], alltr[i][1]) for i in sample], chunk=40)
+            except RuntimeError:
+                cres = conc.coq_conform("c01root_conf_%d_again" % os.getpid(), IMPORTS, "conform", [(alltr[i][0], alltr[i][1]) for i in sample],
+                                        chunk=40, timeout=9000)
+            if len(cres) != len(sample):
+                raise RuntimeError("%d answers for %d traces" % (len(cres), len(sample)))
+            for i, cr in zip(sample, cres):
+                if tuple(cr) != tuple(res[i]):
+                    mism.append({"what": "RootQ.conform evaluated inside Coq and its OCaml extraction disagree on a recorded trace",
+                                 "detail": {"label": alltr[i][2], "thread": alltr[i][3], "coq": list(cr), "ocaml": list(res[i])}})
+            st["traces_also_evaluated_inside_coq"] = len(sample)
+        except RuntimeError as e:
+            mism.append({"what": "the sample of traces could not be evaluated inside Coq (twice): the extraction was not cross-checked",
+                         "detail": {"error": str(e)[-1500:]}})
     cls = {}
     for (i, c), (sv, t, label, thr, kind) in zip(res, alltr):
         cls["%s_end_class_%d" % (kind, c)] = cls.get("%s_end_class_%d" % (kind, c), 0) + 1
@@ -639,6 +707,75 @@ def correspond(ctx):
                          "detail": {"label": label, "thread": thr, "kind": kind, "rejected_at": i, "end_class": c,
                                     "around": [e.brief() for e in t[max(0, i - 6):i + 3]] if i >= 0 else [e.brief() for e in t[-6:]]}})
     st.update(cls)
+    return mism
+
+
+def correspond(ctx):
+    global OFFSETS
+    OFFSETS = gen_offsets()
+    fails, mism, alltr, st = [], [], [], {}
+    blocked = []
+    rp_total = rp_ok = retried = 0
+    scen = plan(ctx)
+    for (mode, seed, permille, oc, size, idle) in scen:
+        label = "%s:%d:%d:%d:%d:%d" % (mode, seed, permille, oc, size, idle)
+        run, f, m, tr, replayed, notfound = judge_scenario(mode, seed, permille, oc, size, idle, label, st)
+        fails += f
+        mism += m
+        alltr += tr
+        if run is None:
+            if f:
+                break      # the library does not even run a single item: the remaining runs would only hang
+            continue
+        # whole-run replay on the global model.  The order is found by an untrusted, incomplete search (the recorder's stamps
+        # only bound each operation's place): a round for which no order is found is COUNTED and the scenario is recorded
+        # once more with another seed; it is a mismatch if that happens twice for the same scenario, or for more than one
+        # scenario in five of this check
+        if replayed is not None:
+            rp_total += 1
+            if replayed:
+                rp_ok += 1
+            else:
+                retried += 1
+                st["rounds_without_order_first_run"] = retried
+                run2, f2, m2, tr2, replayed2, notfound2 = judge_scenario(mode, seed + 100, permille, oc, size, idle, label + ":retry1", {})
+                fails += f2
+                mism += m2
+                if replayed2:
+                    st["rounds_without_order_not_confirmed_by_second_run"] = st.get("rounds_without_order_not_confirmed_by_second_run", 0) + 1
+                else:
+                    mism += (notfound2 or notfound)
+        if run.b is not None:
+            blocked.append({"label": label, "waiters": run.b[0], "pool_before": run.b[1], "pool_min": run.b[2],
+                            "worker_threads": run.b[3], "elapsed_ms": run.b[4], "finished": run.b[5]})
+            if run.b[5] and not oc and run.b[2] >= 0:
+                mism.append({"what": "blocked-pool run finished without the pool growing beyond its nominal size: the scenario was "
+                             "not exercised", "detail": blocked[-1]})
+    if retried > max(1, len(scen) // 5):
+        mism.append({"what": "whole-run replay: no order of the recorded actions was found at the first attempt in %d of %d scenarios "
+                     "(more than an incomplete search explains)" % (retried, len(scen)), "detail": {"label": "all"}})
+    if rp_total == 0 and not mism and not fails:
+        mism.append({"what": "no run was replayed on the global model at all", "detail": {"label": "all"}})
+    # the lost wake-up predicted by the model (RootQ.stall_schedule / C01_root_stall_needs_monitor), forced on the real
+    # library by holding threads inside the hook: the library must end in the model's stall_state
+    try:
+        srun, sm, str_ = run_stall(ctx, st)
+        mism += sm
+        alltr += str_
+    except HarnessProblem as e:
+        mism.append({"what": "the forced-schedule harness could not be run", "detail": {"label": "stall:0:0:0:0:0", "error": str(e)}})
+    st["rounds_replayed_on_global_model"] = rp_ok
+    st["rounds_total_for_replay"] = rp_total
+    st["scenarios_planned"] = len(scen)
+    mon_n = 0
+    try:
+        mon_mism, mon_n = check_monitor(ctx, st)
+        mism += mon_mism
+    except (HarnessProblem, RuntimeError) as e:
+        mism.append({"what": "the monitor differential could not be run", "detail": {"label": "monitor", "error": str(e)[-1500:]}})
+    mism += conformance_mismatches(ctx, alltr, st)
+    if not alltr and not mism and not fails:
+        mism.append({"what": "nothing was recorded: no thread trace in %d scenarios" % len(scen), "detail": {"label": "all"}})
     distinct = len(set((kind, tuple((e.kind, e.obj, e.off if e.obj != 3 else 0, e.ok & 1, e.a in (0, MED)) for e in t))
                        for (_, t, _, _, kind) in alltr))
     samples = []
@@ -654,13 +791,17 @@ def correspond(ctx):
                     "phase > 5 s (workers time out, return their slot, exit, are re-created), and the blocked-pool scenario "
                     "(ncpu+k items block in sem_wait until a later item runs); schedule perturbation inside the library's atomic "
                     "operations (0/15/40 percent); every thread's recorded atomic operations on the queue structure, on the pool "
-                    "semaphore and on do_next of queued objects are replayed through RootQ.tstep_vis inside Coq (pushers, workers, "
-                    "the monitor's pokes); WHOLE-RUN REPLAY: every run of at most 60000 events is in addition replayed, all threads "
+                    "semaphore and on do_next of queued objects are replayed through RootQ.tstep_vis (pushers, workers, the monitor's "
+                    "pokes) BY THE OCAML EXTRACTION of RootQ.conform (Extract_rootq.v, ocaml/c01_root_driver.ml); Coq itself evaluates "
+                    "the same function on a sample of the traces (the shortest of every kind) and the two must agree; WHOLE-RUN REPLAY: every run of at most 60000 events is in addition replayed, all threads "
                     "together, as one run of the global model RootQ.gstep (an order of the recorded actions is searched outside "
                     "Coq under the rule that an operation lies between its thread's previous stamp and its own stamp; the order "
                     "found is executed strictly by the extracted RootQR.replay: every step must be accepted with the values the "
                     "library observed), the end state must equal the library's final head / tail / dgq_pending / pool size / "
-                    "dsema_value and satisfy the boolean invariant RootQR.inv_code (proved 0 on reachable states); "
+                    "dsema_value; a run for which no order is found is counted and the scenario is recorded once more (mismatch if "
+                    "it happens twice for a scenario or in more than one scenario of five); RootQR.inv_code is evaluated on the END "
+                    "state only, as a consistency check of the replay machinery (it is 0 on reachable states by theorem and the "
+                    "replay only takes model steps: it can fail only if extraction or driver are wrong); "
                     "oracle: every item invoked exactly once, every push instance dequeued at most once and "
                     "only after it was pushed, per-pusher FIFO of dequeues, dequeued item == invoked item, blocked-pool run "
                     "finishes with the pool grown beyond its nominal size; distinct = distinct thread-trace shapes",
@@ -669,21 +810,76 @@ def correspond(ctx):
 
 
 def replay(ctx, obj):
+    """re-executes the recorded scenarios (same mode, seed, perturbation, size) / the forced schedules / the monitor differential
+    against the current build and judges them again.  1: a failure or mismatch shows again; 0: none does; 2: nothing could be
+    executed for this file"""
     global OFFSETS
     OFFSETS = gen_offsets()
+    labels, other = {}, []
+
+    def note(x, lab):
+        if isinstance(lab, str) and (lab.count(":") >= 5 or lab in ("monitor",)):
+            labels[lab] = 1
+        else:
+            other.append(x)
+
     for f in obj.get("failures", []):
         print("recorded failure:", f.get("what"))
-        lab = f.get("label", "")
-        try:
-            mode, seed, permille, oc, size, idle = lab.split(":")
-        except ValueError:
-            continue
-        st = {}
-        text = run_harness(mode, int(seed), int(permille), int(oc), int(size), int(idle))
-        run, f2, m2, _ = analyse(text, lab, st)
-        print("re-run %s: %d failures" % (lab, len(f2)))
-        for x in f2[:5]:
-            print("  ", x["what"])
+        note(f, f.get("label"))
     for b in obj.get("broken", []):
-        print("no longer checks:", b)
-    return 1
+        print("recorded as no longer checking:", str(b)[:600])
+        d = b.get("detail") if isinstance(b, dict) else None
+        dd = d.get("detail") if isinstance(d, dict) else None
+        note(b, dd.get("label") if isinstance(dd, dict) else None)
+    again, ran = 0, 0
+    for lab in sorted(labels):
+        st = {}
+        if lab == "monitor":
+            ctx.seed = obj.get("seed", ctx.seed)
+            try:
+                mm, n = check_monitor(ctx, st)
+            except (HarnessProblem, RuntimeError) as e:
+                print("monitor differential could not be run:", str(e)[:300])
+                continue
+            ran += 1
+            print("re-run monitor differential (%d cases): %d mismatches" % (n, len(mm)))
+            again += len(mm)
+            continue
+        parts = lab.split(":")
+        if parts[0] in ("stall", "drainwake"):
+            try:
+                _, sm, str_ = run_stall(ctx, st)
+            except HarnessProblem as e:
+                print("forced-schedule harness could not be run:", str(e)[:300])
+                continue
+            sm = sm + conformance_mismatches(ctx, str_, st, coq_sample=False)
+            ran += 1
+            print("re-run forced schedules: %d mismatches" % len(sm))
+            for x in sm[:5]:
+                print("  ", x["what"][:300])
+            again += len(sm)
+            continue
+        try:
+            mode, seed, permille, oc, size, idle = parts[0], int(parts[1]), int(parts[2]), int(parts[3]), int(parts[4]), int(parts[5])
+        except (ValueError, IndexError):
+            other.append(lab)
+            continue
+        if len(parts) > 6 and parts[6].startswith("retry"):
+            seed += 100 * int(parts[6][5:] or 1)
+        run, f2, m2, tr, replayed, notfound = judge_scenario(mode, seed, permille, oc, size, idle, ":".join(parts[:6]), st)
+        m2 = m2 + notfound + conformance_mismatches(ctx, tr, st, coq_sample=False)
+        ran += 1
+        print("re-run %s (seed %d): %d oracle failures, %d mismatches, %d thread traces judged, whole-run replay: %s" %
+              (lab, seed, len(f2), len(m2), len(tr), {True: "replayed", False: "no order found", None: "not attempted"}[replayed]))
+        for x in (f2 + m2)[:6]:
+            print("  ", x["what"][:300], str(x.get("detail", ""))[:300])
+        again += len(f2) + len(m2)
+    for x in other:
+        print("not re-executable from this file (a proof, a tie or a crash of the check itself): only a full ./check "
+              "re-establishes it:", str(x)[:400])
+    if again:
+        return 1
+    if ran:
+        print("does not reproduce")
+        return 0
+    return 2
